@@ -1640,6 +1640,10 @@ class RawAlgorithmsMixIn:
         if out is None:
             raise NotImplementedError('should implement that')
 
+        # reshape of non-contiguous data returns a copy: then ybar is not a
+        # view of xbar and has to be accumulated explicitly
+        if not numpy.shares_memory(out, ybar_data):
+            out += numpy.reshape(ybar_data, x_data.shape)
         return numpy.reshape(out, x_data.shape)
 
     @classmethod
